@@ -36,6 +36,7 @@ class Ctx:
     def __init__(self, prop, P, tier="quick", seed=0, P_release=None):
         self.prop = prop
         self.P = P
+        common.CURRENT_P[0] = P
         self.P_release = P_release
         self.tier = tier
         self.seed = seed
